@@ -449,11 +449,11 @@ func (r *cRun) invoke(n int, timeout time.Duration) *crpc {
 	sid := p.sid
 	r.step(op, func() {
 		go func() {
-			var resp wrapperspb.BytesValue
-			err := r.ch.Channel().Invoke(ctx, "/v.S/U", &wrapperspb.BytesValue{Value: msgValue("c", sid, 0, n)}, &resp)
+			resp := dirtyTarget()
+			err := r.ch.Channel().Invoke(ctx, "/v.S/U", &wrapperspb.BytesValue{Value: msgValue("c", sid, 0, n)}, resp)
 			switch {
 			case err == nil:
-				r.done(sid, "invoke", "msg:"+identify("s", sid, &resp, 64))
+				r.done(sid, "invoke", "msg:"+identify("s", sid, resp, 64))
 			case strings.Contains(err.Error(), "channel is closed") || strings.Contains(err.Error(), "stream IDs exhausted"):
 				r.done(0, "invoke", fmtRes(err))
 			default:
@@ -501,10 +501,10 @@ func (r *cRun) callRecv(p *crpc) {
 	p.recvPend = true
 	r.step(fmt.Sprintf("c.call sid=%d recv", p.sid), func() {
 		p.recvQ <- func() {
-			var m wrapperspb.BytesValue
-			err := p.str.RecvMsg(&m)
+			m := dirtyTarget() // an application may reuse its message object: the codec must reset it
+			err := p.str.RecvMsg(m)
 			if err == nil {
-				r.done(p.sid, "recv", "msg:"+identify("s", p.sid, &m, 64))
+				r.done(p.sid, "recv", "msg:"+identify("s", p.sid, m, 64))
 			} else {
 				r.done(p.sid, "recv", fmtRes(err))
 			}
